@@ -1,8 +1,9 @@
 (* C20 correspondence: judge what the implementation returned (written by harness/src/bin/c20.rs as
-   `case` terms) against the model (Model/Arith.v, ...) and against the property's own oracle.
-   Evaluated by vm_compute; definitions only. *)
+   `case` terms) against the models (Model/Arith.v, StrFun.v, DateFun.v, Cast.v: [model_agrees]) and against
+   the property's own oracle ([spec_ok]: exact integers, character-level string functions, the calendar).
+   [known_class] is the recorded-finding class of the INPUT (0 = none).  Evaluated by vm_compute; definitions only. *)
 From Coq Require Import ZArith List Bool.
-From TV Require Export Lib.MachInt Model.Arith Model.Utf8 Model.StrFun Model.DateFun.
+From TV Require Export Lib.MachInt Model.Arith Model.Utf8 Model.StrFun Model.DateFun Model.Cast.
 Import ListNotations.
 Open Scope Z_scope.
 
@@ -17,7 +18,9 @@ Inductive case :=
 | CArith (e : expr) (o1 o2 : out)
 | CNum (f : nfn) (args : list val) (direct sql : out)
 | CStr (f : sfn) (args : list val) (direct : out) (sql : sqlobs)
-| CDate (f : dfn) (args : list darg) (direct : out) (sql : sqlobs).
+| CDate (f : dfn) (args : list darg) (direct : out) (sql : sqlobs)
+| CCast (k : castk) (v : val) (sql : out)        (* SELECT CAST(v AS ...) *)
+| CFlt (id : Z) (n : Z) (direct : out).          (* float identity number id on the integer-valued float n: sampled, no model *)
 
 Definition v_eqb (a b : val) : bool :=
   match a, b with
@@ -47,12 +50,34 @@ Definition sql_agrees (model : out) (s : sqlobs) : bool :=
 Definition sql_ok (x : sres) (s : sqlobs) : bool :=
   match s with Obs o => str_obs_ok x o | _ => true end.
 
+(* identities that hold for every libm: arguments and results are integer-valued floats (exactly representable) *)
+Definition flt_exact (id n : Z) : xres :=
+  if 67108864 <? Z.abs n then XAny else
+  match id with
+  | 0 => XInt n                       (* POWER(n, 1) *)
+  | 1 => XInt (Z.abs n)               (* SQRT(n * n) *)
+  | 2 => XInt (Z.abs n)               (* ABS(n) *)
+  | 3 | 4 | 5 => XInt n               (* CEIL(n) FLOOR(n) ROUND(n) *)
+  | 6 => XInt 1                       (* EXP(0) *)
+  | 7 => XInt 0                       (* LN(1) *)
+  | 8 => XInt 0                       (* SIN(0) *)
+  | 9 => XInt 1                       (* COS(0) *)
+  | 10 => if 0 <? n then XNullP else XAny     (* SQRT(-n) *)
+  | 11 => if 0 <=? n then XNullP else XAny    (* LN(-n) *)
+  | 12 => XNullP                      (* MOD(n, 0.0) *)
+  | 13 => XInt (n * n)                (* POWER(n, 2) *)
+  | 14 => XInt (Z.sgn n)              (* SIGN(n) *)
+  | _ => XAny
+  end.
+
 Definition model_agrees (c : case) : bool :=
   match c with
   | CArith e o1 o2 => wf e && out_eqb (to_sql (eval e)) o1 && out_eqb (to_sql (eval e)) o2
   | CNum f args d s => out_eqb (eval_nfn f args) d && out_eqb (to_sql (eval_nfn f args)) s
   | CStr f args d s => out_eqb (eval_sfn f args) d && sql_agrees (eval_sfn f args) s
   | CDate f args d s => out_eqb (eval_dfn f args) d && sql_agrees (eval_dfn f args) s
+  | CCast k v s => out_eqb (to_sql (eval_cast k v)) s
+  | CFlt _ _ _ => true
   end.
 
 Definition spec_ok (c : case) : bool :=
@@ -61,6 +86,8 @@ Definition spec_ok (c : case) : bool :=
   | CNum f args d s => fn_obs_ok (fn_exact f args) (to_sql d) && fn_obs_ok (fn_exact f args) s
   | CStr f args d s => str_obs_ok (str_exact f args) (to_sql d) && sql_ok (str_exact f args) s
   | CDate f args d s => str_obs_ok (date_exact f args) (to_sql d) && sql_ok (date_exact f args) s
+  | CCast k v s => str_obs_ok (cast_exact k v) s
+  | CFlt id n d => fn_obs_ok (flt_exact id n) (to_sql d)
   end.
 
 Definition known_class (c : case) : Z :=
@@ -69,6 +96,8 @@ Definition known_class (c : case) : Z :=
   | CNum f args _ _ => nfn_class f args
   | CStr f args _ _ => sfn_class f args
   | CDate f args _ _ => dfn_class f args
+  | CCast _ _ _ => 0
+  | CFlt _ _ _ => 0
   end.
 
 Fixpoint failures_from (i : Z) (cs : list case) : list (Z * bool * bool * Z) :=
